@@ -839,4 +839,58 @@ theorem host_split {n : Bytes} (h : GoodHost n) :
   exact keyOf_join ds [STAR] (by decide) h2
 
 
+-- for_each_value_mut (`Node.mapV`) commutes with lookup
+@[simp] theorem mapV_kv (f : V → V) (n : Node V) : (n.mapV f).kv = mapSnd f n.kv := by
+  cases n; simp [Node.mapV, Node.kv]
+@[simp] theorem mapV_wc (f : V → V) (n : Node V) : (n.mapV f).wc = mapSnd f n.wc := by
+  cases n; simp [Node.mapV, Node.wc]
+@[simp] theorem mapV_children (f : V → V) (n : Node V) : (n.mapV f).children = mapChildrenV f n.children := by
+  cases n; simp [Node.mapV, Node.children]
+@[simp] theorem mapV_regexps (f : V → V) (n : Node V) : (n.mapV f).regexps = mapRegexpsV f n.regexps := by
+  cases n; simp [Node.mapV, Node.regexps]
+
+theorem get?_mapChildrenV (f : V → V) (ch : List (Seg × Node V)) (seg : Seg) :
+    KMap.get? (mapChildrenV f ch) seg = (KMap.get? ch seg).map (Node.mapV f) := by
+  induction ch with
+  | nil => rfl
+  | cons a t ih =>
+    obtain ⟨s, n⟩ := a
+    simp only [mapChildrenV, KMap.get?, List.find?_cons] at ih ⊢
+    by_cases e : s = seg
+    · simp [e]
+    · simp only [e, decide_false]; exact ih
+
+theorem matchRe_mapRegexpsV (re : Bytes → Bytes → Bool) (f : V → V) (rs : List (Bytes × Node V)) (label : Bytes) :
+    matchRe re (mapRegexpsV f rs) label = (matchRe re rs label).map (fun p => (p.1, Node.mapV f p.2)) := by
+  induction rs with
+  | nil => rfl
+  | cons a t ih =>
+    obtain ⟨p, n⟩ := a
+    simp only [mapRegexpsV, matchRe, List.find?_cons] at ih ⊢
+    by_cases e : re p label = true
+    · simp [e]
+    · simp only [e]; exact ih
+
+theorem mapSnd_isSome (f : V → V) (x : Option (Bytes × V)) : (mapSnd f x).isSome = x.isSome := by
+  cases x <;> rfl
+
+/-- `for_each_value_mut` commutes with lookup: the same leaf is found, its value mapped -/
+theorem lookup_mapV (re : Bytes → Bytes → Bool) (acc : Bool) (f : V → V) (q : List Seg) :
+    ∀ (t : Node V), lookup re acc (t.mapV f) q = mapSnd f (lookup re acc t q) := by
+  induction q with
+  | nil => intro t; simp [lookup]
+  | cons seg rest ih =>
+    intro t
+    simp only [lookup, mapV_children, get?_mapChildrenV, mapV_wc, mapV_regexps, matchRe_mapRegexpsV, mapSnd_isSome]
+    cases hc : KMap.get? t.children seg with
+    | some c => simp [ih c]
+    | none =>
+      simp only [Option.map_none]
+      split
+      · rfl
+      · cases hm : matchRe re t.regexps seg.2 with
+        | none => simp [mapSnd]
+        | some pc => obtain ⟨p, c⟩ := pc; simp [ih c]
+
+
 end Sozu.Trie
